@@ -12,7 +12,7 @@ def plan(tier, seed):
     alt = spaces.label_choices(seed, 1)[0]
     if tier == 'quick':
         blocks = [(3, 2, 'all', 'ints'), (2, 3, 'all', 'ints'), (4, 1, 'all', 'ints'), (3, 2, 'core', alt),
-                  (4, 2, 'core2', 'ints')]
+                  (4, 2, 'core2', 'ints'), (3, 1, 'sch01', 'ints'), (2, 2, 'sch01', 'ints')]
     else:
         blocks = [(4, 2, 'all', 'ints'), (3, 3, 'all', 'ints'), (5, 1, 'all', 'ints'), (3, 2, 'sch01', 'ints'),
                   (4, 2, 'core', alt), (2, 4, 'all', 'ints'), (5, 2, 'core2', 'ints')]
